@@ -26,7 +26,7 @@ CASES = {"quick": 1500, "thorough": 8000}
 WARNING = "Warning: A successor has modified the shared dicts"
 
 SHARE = ["filter", "sort", "unique", "head", "tail", "slice", "copy", "reverse", "sample", "semi_join", "anti_join",
-         "append", "extend", "insert", "add", "mul", "drop_na", "clear"]
+         "append", "extend", "insert", "add", "mul", "drop_na", "clear", "group_by"]
 EDIT = ["modify", "modify_if", "modify_nested", "rename", "select", "unselect", "fill", "fill_all", "inner_join", "left_join"]
 USE = ["pluck", "keys", "to_json"]
 
@@ -153,9 +153,13 @@ def check(plan, ctx):
         op, a = s["op"], s["a"]
         x, y = node.real, other.real
         needs_k = op in ("semi_join", "anti_join", "inner_join", "left_join", "sort", "unique", "modify_if")
+        may_raise = False
         if needs_k and not (_has_k(x) and (_has_k(y) or "join" not in op)):
-            ctx.excl("step needs key 'k' in every item")
-            continue
+            if op in SHARE:
+                may_raise = True                  # a KeyError is fine, but nothing may have been touched
+            else:
+                ctx.excl("step needs key 'k' in every item")
+                continue
         snaps = [_snap(n.real) for n in pool]
         origins_before = [set(n.origins) for n in pool]
         recv_origins_before = set(node.origins)
@@ -166,7 +170,22 @@ def check(plan, ctx):
             try:
                 res = _apply(op, x, y, a, fresh_item)
             except Exception as e:
-                raise Violation(f"{op} raised", step=stepno, exc=f"{type(e).__name__}: {e}")
+                if not may_raise:
+                    raise Violation(f"{op} raised", step=stepno, exc=f"{type(e).__name__}: {e}")
+                res = None
+        if may_raise:
+            # the call lies outside the documented domain (an item lacks the key): whether it raised or not, a
+            # non-modifying method must not have changed any item of any list
+            if buf.getvalue().count(WARNING) and expect_warning:
+                node.warned = True
+            for idx, (n, before) in enumerate(zip(pool, snaps)):
+                if _snap(n.real) != before:
+                    raise Violation("a non-modifying method changed item contents (while failing on a missing key)",
+                                    step=stepno, op=op, list=idx, before=before, after=_snap(n.real))
+            ctx.cls("share_op_on_missing_key")
+            if res is None or not isinstance(res, di.ListOfDicts):
+                continue
+            may_raise = False
         printed = buf.getvalue()
         nwarn = printed.count(WARNING)
         if printed.replace(WARNING + "\n", "") != "":
@@ -206,6 +225,8 @@ def check(plan, ctx):
                 p = p.parent
             if node.depth >= 2:
                 ctx.cls("edit_at_depth>=2")
+        elif op == "group_by" and res is x:
+            new = None                             # documented: marks and returns the receiver itself
         else:
             origins = set(node.origins)
             if op in ("extend", "add"):
@@ -257,6 +278,7 @@ def _apply(op, x, y, a, fresh_item):
     if op == "mul": return x * (a % 3)
     if op == "drop_na": return x.drop_na("k", "p")
     if op == "clear": return x.clear()
+    if op == "group_by": return x.group_by("k")
     if op == "deepcopy": return x.deepcopy()
     if op == "modify": return x.modify(v=lambda it: a)
     if op == "modify_nested":
